@@ -3,9 +3,11 @@ import lib
 from props import pgen, pstack
 
 ID = 'C09'
-GEN_FILES = ['T_parser', 'T_fmtspaces', 'T_pins_parser', 'T_pins_luawriter']
+GEN_FILES = ['T_parser', 'T_fmtspaces', 'T_pins_parser', 'T_pins_luawriter', 'T_lexer', 'T_pins_lexer', 'T_luanames', 'T_minifier',
+             'T_minifier_p8', 'T_minwiring_lua', 'T_minwiring_tool', 'T_minwiring_build']
 COQ_PROPERTY = 'theories/Properties/C09.vo'
-COQ_EXTRA = ['theories/Proofs/ParserPins.vo', 'theories/Proofs/AstWriterPins.vo', 'theories/Generated/T_parser_selftest.vo']
+COQ_EXTRA = ['theories/Proofs/ParserPins.vo', 'theories/Proofs/AstWriterPins.vo', 'theories/Generated/T_parser_selftest.vo',
+             'theories/Proofs/LexerPins.vo', 'theories/Proofs/LexTokenSame.vo']
 MODEL = ('ExC09', ['lua_io.ml', 'c09_main.ml'])
 MONITOR = ('MonC09', ['lua_io.ml', 'c09_mon_main.ml'])
 CASE_TIMEOUT = 180
@@ -23,13 +25,17 @@ ASSUMPTIONS = ['tokens are those of pico8/lua/lexer.py for both the input and th
                'writer mode: args without ignore_tokens (what p8tool luafmt uses)',
                'valid programs are generated without a parenthesised expression followed by a suffix and without a short-if '
                'body starting with do, except in the dedicated streams (known findings)']
-PARTIAL = ('C09_aligned is proved for every token list the parser model reads to its end and whose tree lies in the domain '
-           '`writable` (Model/WriterDomain.v): plain token spelling (what the lexer produces), no parenthesised prefix followed by a '
-           'suffix (known finding paren-suffix), no `if c do ... end` (known finding short-if-do-body), none of the non-programs the '
-           'parser accepts (`()`, `{,1}`, `for =1,2 do end`, `if then`, `if f(x) y=1`). The first two exclusions are needed: '
-           'C09_aligned_paren_prefix_refuted, C09_aligned_if_do_refuted. Not proved: that the re-lexed output has the same code view '
-           '(holds_C09 / same_code are evaluated by the monitor on the real output; the theorems are at chunk / byte level, the lexer is '
-           'C07), the line-scope clause (lines_kept), and completeness of the parser on valid programs (C08). See notes/C09.md')
+PARTIAL = ('C09_aligned / C09_same_code are proved for every source of the reference dialect whose tokens the parser model reads to '
+           'their end and whose tree lies in the domain `writable` (Model/WriterDomain.v): plain token spelling (what the lexer '
+           'produces), no parenthesised prefix followed by a suffix (known finding paren-suffix), no `if c do ... end` (known finding '
+           'short-if-do-body), none of the non-programs the parser accepts (`()`, `{,1}`, `for =1,2 do end`, `if then`, `if f(x) y=1`). '
+           'The first two exclusions are needed: C09_aligned_paren_prefix_refuted, C09_aligned_if_do_refuted. C09_same_code is about the '
+           'lexer MODEL run on the written text of the writer MODEL (both tied to the code by correspondence; the reference dialect of '
+           'Spec/LuaLex.v bounds it: no lone CR, no `--[==[`); C09_luafmt_holds / C09_echo_holds give the whole instance predicate holds_C09 '
+           '(parsed to the end, same code view, line-scoped constructs keep their extent) for the model inside that domain. C09_luafmt_idempotent has the parse of the second pass and its '
+           'domain as hypotheses (that the re-lexed tokens parse to a tree inside the domain is not proved: parser invariance under white-space '
+           'changes) and excludes one-line if with else and trailing table separators in both passes. Not proved: '
+           'completeness of the parser on valid programs (C08), i.e. that every valid program is inside the domain. See notes/C09.md')
 CLAIM = dict(
     text=("Model/AstWriter.v mirrors LuaASTEchoWriter (every handler, _get_text/_get_name/_get_semis/_get_code_for_spaces "
           "with the token cursor and the indent counter, the end-of-input check of to_lines), parameterised by the spaces "
@@ -42,10 +48,27 @@ CLAIM = dict(
           "the same bytes as the input outside white space, in order, and every code token verbatim), C09_aligned_*_refuted (the "
           "two finding exclusions are needed: witness programs on which the model - and the real writer - raise AssertionError), "
           "C09_no_silent_loss (if a significant token lies at or after the end of the root node the writer raises ParserError and "
-          "writes nothing). Proof route: Proofs/ParserShape.v re-runs the weakest-precondition proof of the parser with the "
+          "writes nothing), C09_same_code / C09_echo_same_code (the token-level clause: for every byte string of the reference "
+          "dialect, lexed by the lexer model, parsed to the end, tree in the domain: the text luafmt - any indent width - / the echo "
+          "writer writes is again a byte string of the reference dialect, the lexer model reads it, and the tokens read have the same "
+          "code view same_code as the input: the same significant tokens with class and code, in order, and between them the same "
+          "comments with the same bytes outside white space; so no end-of-line comment swallows code, no two tokens are glued, the "
+          "token count is unchanged), C09_luafmt_holds / C09_echo_holds (under the same hypotheses the observation satisfies the "
+          "whole instance predicate holds_C09 that the monitor evaluates on the real output; the line-scope clause in its strongest "
+          "form: nl_before - for every code token, is there a newline token between the previous code token and it - is the same "
+          "list for the input and the written text, so a one-line if stays on one line and what followed it on a later line stays "
+          "on a later line), C09_luafmt_idempotent (whole-program idempotence for the models: additionally without a one-line if with "
+          "else and without a trailing table separator - the two places where the writer's nesting counter is not the reference depth, "
+          "C10_indent_link - the text luafmt wrote is lexed by the lexer model, and whenever the parser model reads those tokens to "
+          "the end with a tree under the same conditions, luafmt writes exactly the same text again; Proofs/FmtRelexIdem.v), "
+          "C09_run_same_comments (every re.sub of _get_code_for_spaces is neutral for a byte-level "
+          "white-space / comment automaton). Proof route: Proofs/ParserShape.v re-runs the weakest-precondition proof of the parser with the "
           "postcondition `span` (every leaf was the first significant token at the cursor, node ends are cursors) and `shaped` "
           "(per node class, which hidden keyword / symbol leaves, token leaves and sub-nodes occur in which order); "
-          "Proofs/AstWriterAligned.v shows by induction on the tree that the walk re-emits exactly the leaves. Tie: chunk-level "
+          "Proofs/AstWriterAligned.v shows by induction on the tree that the walk re-emits exactly the leaves; Proofs/FmtRelexAuto.v "
+          "(automaton, neutrality of the 15 substitutions, what a formatted run begins with), Proofs/FmtRelexLex.v (automaton = "
+          "reference lexer on trivia text; a code token is read back in front of the same first byte / blank / line feed / nothing), "
+          "Proofs/FmtRelexMain.v (induction over the aligned chunk list, composition with C07's lex_agrees_code on both texts). Tie: chunk-level "
           "correspondence of the extracted walk with the instrumented real writers, text-level correspondence for both writers, "
           "and the extracted monitor holds_C09 on the re-lexed real output."),
     note=("Trusted: Coq kernel+VM, ExtrOcamlBasic extraction, OCaml glue, the hand-written walk model (correspondence-tested "
